@@ -1,9 +1,9 @@
 SPECIFICATION Spec
 CONSTANTS
-  MaxSrv = 3
-  MaxCli = 3
+  MaxSrv = 2
+  MaxCli = 1
   Cfgs <- AllCfgs
-  Lite = FALSE
+  Lite = "full"
 INVARIANTS TypeOK S1_ExitResult S2_Conservation S2_NoDataLoss S3_StartOnce S5_StdinEOF S6_StartFailure S7_ReplyValue S8_NoStuckCall
 VIEW View
 CHECK_DEADLOCK FALSE
